@@ -8,20 +8,39 @@ trusted.
 namespace Juniper.Proofs.Pipe
 open Juniper.Facts Juniper.Gen.Pipe Juniper.Model.Pipe
 
-/-- How many `select` statements a sender call still has in front of it. -/
+/-- How many own steps a sender call has in front of it at most (poll/park, then the arm that fires). -/
 def stage : SPc → Nat
   | .idle => 0
-  | .send _ => 1
+  | .send _ true => 1
+  | .send _ false => 2
   | .try2 _ => 1
   | .try1 _ => 2
 
+/-- How many own steps `Next` has in front of it at most (`next` polling → parked → drain → returned). -/
 def rstage : RPc → Nat
   | .idle => 0
   | .drain => 1
-  | .next => 2
+  | .next true => 2
+  | .next false => 3
+
+theorem rstage_next_ge (p : Bool) : 2 ≤ rstage (.next p) := by cases p <;> simp [rstage]
 
 theorem stage_after_lt {pc : SPc} {m : Msg} (a : Arm) (h : pc.msg? = some m) : stage (pc.after a) < stage pc := by
-  cases pc <;> simp [SPc.msg?] at h <;> (unfold SPc.after; split <;> simp [stage, SPc.fallThrough])
+  cases pc with
+  | idle => simp [SPc.msg?] at h
+  | send m p => cases p <;> (unfold SPc.after; split <;> simp [stage, SPc.fallThrough])
+  | try1 m => unfold SPc.after; split <;> simp [stage, SPc.fallThrough]
+  | try2 m => unfold SPc.after; split <;> simp [stage, SPc.fallThrough]
+
+theorem after_parked (pc : SPc) (a : Arm) : (pc.after a).parked = false := by
+  unfold SPc.after
+  split
+  · cases pc <;> simp [SPc.fallThrough, SPc.parked]
+  · simp [SPc.parked]
+
+/-- An arm of the `select` of `Send` always returns. -/
+theorem after_send_pc (m : Msg) (p : Bool) (a : Arm) : (SPc.send m p).after a = .idle := by
+  unfold SPc.after; split <;> simp [SPc.fallThrough]
 
 /-! ### Introduction lemmas for `step` -/
 
@@ -51,6 +70,13 @@ theorem step_handoff_intro {st : State} {i : Nat} {sd : Sender} {m : Msg}
              rpc := .idle, delivered := st.delivered ++ [m] } := by
   simp only [step, hsd, hm, hc, if_true]
 
+theorem step_park_intro {st : State} {i : Nat} {sd : Sender} {m : Msg}
+    (hsd : st.senders[i]? = some sd) (hpc : sd.pc = .send m false) (hr : sDefaultReady st sd = true) :
+    step st (.park i) = some (st.setSender i { sd with pc := .send m true }) := by
+  simp only [step, hsd]
+  rw [hpc]
+  simp [hr]
+
 theorem lt_of_getElem?_some {st : State} {i : Nat} {sd : Sender} (h : st.senders[i]? = some sd) :
     i < st.senders.length := (List.getElem?_eq_some_iff.mp h).1
 
@@ -58,20 +84,28 @@ theorem getElem?_setSender_self {st : State} {i : Nat} {sd sd' : Sender} (h : st
     (st.setSender i sd').senders[i]? = some sd' := by
   simp [getElem?_setSender, lt_of_getElem?_some h]
 
-/-- Every own step of a sender call moves it strictly towards its return. -/
+/-- The labels that are steps of sender goroutine `i` itself. -/
+def ownLabel (i : Nat) (l : Label) : Prop := l = .handoff i ∨ l = .park i ∨ ∃ a, l = .sender i a
+
+/-- Every own step of a sender call moves it strictly towards its return; it is an arm that fires
+(`pc.after a`) or the parking of a polling `Send`; the call's context flag is untouched. -/
 theorem sender_step_progress {st st' : State} {i : Nat} {sd : Sender} {l : Label}
-    (hsd : st.senders[i]? = some sd) (hl : l = .handoff i ∨ ∃ a, l = .sender i a)
+    (hsd : st.senders[i]? = some sd) (hl : ownLabel i l)
     (hs : step st l = some st') :
-    ∃ sd', st'.senders[i]? = some sd' ∧ stage sd'.pc < stage sd.pc := by
-  rcases hl with rfl | ⟨a, rfl⟩
+    ∃ sd', st'.senders[i]? = some sd' ∧ stage sd'.pc < stage sd.pc ∧ sd'.ctx = sd.ctx ∧
+      ((∃ a, sd'.pc = sd.pc.after a) ∨ (∃ m, sd.pc = .send m false ∧ sd'.pc = .send m true)) := by
+  rcases hl with rfl | rfl | ⟨a, rfl⟩
   · obtain ⟨sd0, m, hsd0, hm, _, rfl⟩ := step_handoff hs
     rw [hsd] at hsd0; cases hsd0
-    exact ⟨_, getElem?_setSender_self (st := st) hsd, stage_after_lt _ hm⟩
+    exact ⟨_, getElem?_setSender_self (st := st) hsd, stage_after_lt _ hm, rfl, Or.inl ⟨_, rfl⟩⟩
+  · obtain ⟨sd0, m, hsd0, hpc, _, rfl⟩ := step_park hs
+    rw [hsd] at hsd0; cases hsd0
+    exact ⟨_, getElem?_setSender_self (st := st) hsd, by simp [hpc, stage], rfl, Or.inr ⟨m, hpc, rfl⟩⟩
   · obtain ⟨sd0, m, hsd0, hm, _, hcase⟩ := step_sender hs
     rw [hsd] at hsd0; cases hsd0
     rcases hcase with ⟨rfl, _⟩ | ⟨ch, rfl, _, rfl⟩
-    · exact ⟨_, getElem?_setSender_self hsd, stage_after_lt _ hm⟩
-    · exact ⟨_, getElem?_setSender_self (st := st) hsd, stage_after_lt _ hm⟩
+    · exact ⟨_, getElem?_setSender_self hsd, stage_after_lt _ hm, rfl, Or.inl ⟨_, rfl⟩⟩
+    · exact ⟨_, getElem?_setSender_self (st := st) hsd, stage_after_lt _ hm, rfl, Or.inl ⟨_, rfl⟩⟩
 
 /-! ### Send -/
 
@@ -84,17 +118,19 @@ structure SendFacts : Prop where
 def SendCond (st : State) (sd : Sender) : Prop :=
   st.streamDone = true ∨ st.senderDone = true ∨ sd.ctx = true
 
-theorem send_enabled {st : State} {i : Nat} {sd : Sender} {m : Msg} (hF : SendFacts)
-    (hsd : st.senders[i]? = some sd) (hpc : sd.pc = .send m) (hc : SendCond st sd) :
-    ∃ a st', step st (.sender i a) = some st' := by
+theorem send_enabled {st : State} {i : Nat} {sd : Sender} {m : Msg} {p : Bool} (hF : SendFacts)
+    (hsd : st.senders[i]? = some sd) (hpc : sd.pc = .send m p) (hc : SendCond st sd) :
+    ∃ a st' sd', step st (.sender i a) = some st' ∧ st'.senders[i]? = some sd' ∧ sd'.pc = .idle := by
   have hm : sd.pc.msg? = some m := by rw [hpc]; rfl
+  have hidle : ∀ a, ({ sd with pc := sd.pc.after a } : Sender).pc = .idle := by
+    intro a; show sd.pc.after a = .idle; rw [hpc]; exact after_send_pc m p a
   rcases hc with h | h | h
-  · exact ⟨.recv chStreamDone, _, step_sender_recv hsd hm (by rw [hpc]; exact hF.streamArm)
-      (by simp [sReady, h, chCtx, chStreamDone, chSenderDone])⟩
-  · exact ⟨.recv chSenderDone, _, step_sender_recv hsd hm (by rw [hpc]; exact hF.senderArm)
-      (by simp [sReady, h, chCtx, chStreamDone, chSenderDone])⟩
-  · exact ⟨.recv chCtx, _, step_sender_recv hsd hm (by rw [hpc]; exact hF.ctxArm)
-      (by simp [sReady, h, chCtx, chStreamDone, chSenderDone])⟩
+  · exact ⟨.recv chStreamDone, _, _, step_sender_recv hsd hm (by rw [hpc]; exact hF.streamArm)
+      (by simp [sReady, h, chCtx, chStreamDone, chSenderDone]), getElem?_setSender_self hsd, hidle _⟩
+  · exact ⟨.recv chSenderDone, _, _, step_sender_recv hsd hm (by rw [hpc]; exact hF.senderArm)
+      (by simp [sReady, h, chCtx, chStreamDone, chSenderDone]), getElem?_setSender_self hsd, hidle _⟩
+  · exact ⟨.recv chCtx, _, _, step_sender_recv hsd hm (by rw [hpc]; exact hF.ctxArm)
+      (by simp [sReady, h, chCtx, chStreamDone, chSenderDone]), getElem?_setSender_self hsd, hidle _⟩
 
 /-- `streamDone` and `senderDone` are never reset. -/
 theorem flags_mono {st st' : State} {l : Label} (hs : step st l = some st') :
@@ -125,6 +161,8 @@ theorem flags_mono {st st' : State} {l : Label} (hs : step st l = some st') :
     obtain ⟨sd, m, _, _, _, hcase⟩ := step_sender hs
     rcases hcase with ⟨rfl, _⟩ | ⟨ch, rfl, _, rfl⟩ <;> exact ⟨id, id⟩
   | handoff i => obtain ⟨sd, m, _, _, _, rfl⟩ := step_handoff hs; exact ⟨id, id⟩
+  | park i => obtain ⟨sd, m, _, _, _, rfl⟩ := step_park hs; exact ⟨id, id⟩
+  | parkRecv => obtain ⟨_, _, rfl⟩ := step_parkRecv hs; exact ⟨id, id⟩
   | recv a =>
     obtain ⟨_, hcase⟩ := step_recv hs
     rcases hcase with ⟨m, rest, _, _, rfl⟩ | ⟨_, _, _, _, rfl⟩ | ⟨_, _, _, rfl⟩ | ⟨ch, _, _, _, rfl⟩ | ⟨_, _, _, rfl⟩ <;>
@@ -136,7 +174,8 @@ theorem sender_frame {st st' : State} {l : Label} {i : Nat} {sd : Sender}
     (hsd : st.senders[i]? = some sd) (hs : step st l = some st') :
     ∃ sd', st'.senders[i]? = some sd' ∧
       (sd' = sd ∨ (sd.pc = .idle ∧ sd'.pc ≠ .idle) ∨ (sd' = { sd with ctx := true } ∧ sd.pc ≠ .idle) ∨
-        stage sd'.pc < stage sd.pc) := by
+        (stage sd'.pc < stage sd.pc ∧ sd'.ctx = sd.ctx ∧
+          ((∃ a, sd'.pc = sd.pc.after a) ∨ (∃ m, sd.pc = .send m false ∧ sd'.pc = .send m true)))) := by
   have hset : ∀ (j : Nat) (x : Sender), j ≠ i → (st.setSender j x).senders[i]? = some sd := by
     intro j x hj
     rw [getElem?_setSender]; simp [hj, hsd]
@@ -181,7 +220,7 @@ theorem sender_frame {st st' : State} {l : Label} {i : Nat} {sd : Sender}
   | sender j a =>
     by_cases hj : j = i
     · subst hj
-      obtain ⟨sd', h1, h2⟩ := sender_step_progress hsd (Or.inr ⟨a, rfl⟩) hs
+      obtain ⟨sd', h1, h2⟩ := sender_step_progress hsd (Or.inr (Or.inr ⟨a, rfl⟩)) hs
       exact ⟨sd', h1, Or.inr (Or.inr (Or.inr h2))⟩
     · obtain ⟨sd0, m, _, _, _, hcase⟩ := step_sender hs
       rcases hcase with ⟨rfl, _⟩ | ⟨ch, rfl, _, rfl⟩
@@ -194,31 +233,73 @@ theorem sender_frame {st st' : State} {l : Label} {i : Nat} {sd : Sender}
       exact ⟨sd', h1, Or.inr (Or.inr (Or.inr h2))⟩
     · obtain ⟨sd0, m, _, _, _, rfl⟩ := step_handoff hs
       exact ⟨sd, hset j _ hj, Or.inl rfl⟩
+  | park j =>
+    by_cases hj : j = i
+    · subst hj
+      obtain ⟨sd', h1, h2⟩ := sender_step_progress hsd (Or.inr (Or.inl rfl)) hs
+      exact ⟨sd', h1, Or.inr (Or.inr (Or.inr h2))⟩
+    · obtain ⟨sd0, m, _, _, _, rfl⟩ := step_park hs
+      exact ⟨sd, hset j _ hj, Or.inl rfl⟩
+  | parkRecv =>
+    obtain ⟨_, _, rfl⟩ := step_parkRecv hs
+    exact ⟨sd, hsd, Or.inl rfl⟩
   | recv a =>
     obtain ⟨_, hcase⟩ := step_recv hs
     rcases hcase with ⟨m, rest, _, _, rfl⟩ | ⟨_, _, _, _, rfl⟩ | ⟨_, _, _, rfl⟩ | ⟨ch, _, _, _, rfl⟩ | ⟨_, _, _, rfl⟩ <;>
       exact ⟨sd, hsd, Or.inl rfl⟩
 
 /-- While the `Send` is pending its return condition cannot be withdrawn. -/
-theorem send_cond_stable {st st' : State} {l : Label} {i : Nat} {sd : Sender} {m : Msg}
-    (hsd : st.senders[i]? = some sd) (hpc : sd.pc = .send m) (hc : SendCond st sd)
+theorem send_cond_stable {st st' : State} {l : Label} {i : Nat} {sd : Sender} {m : Msg} {p : Bool}
+    (hsd : st.senders[i]? = some sd) (hpc : sd.pc = .send m p) (hc : SendCond st sd)
     (hs : step st l = some st') :
-    ∃ sd', st'.senders[i]? = some sd' ∧ (sd'.pc = .idle ∨ (sd'.pc = .send m ∧ SendCond st' sd')) := by
+    ∃ sd', st'.senders[i]? = some sd' ∧ (sd'.pc = .idle ∨ ((∃ p', sd'.pc = .send m p') ∧ SendCond st' sd')) := by
   obtain ⟨hst, hsn⟩ := flags_mono hs
   obtain ⟨sd', hsd', hcase⟩ := sender_frame hsd hs
   refine ⟨sd', hsd', ?_⟩
-  rcases hcase with rfl | ⟨hidle, _⟩ | ⟨rfl, _⟩ | hlt
-  · right
-    refine ⟨hpc, ?_⟩
+  have keep : ∀ c : Bool, c = sd.ctx ∨ c = true → (st'.streamDone = true ∨ st'.senderDone = true ∨ c = true) := by
+    intro c hcc
     rcases hc with h | h | h
     · exact Or.inl (hst h)
     · exact Or.inr (Or.inl (hsn h))
-    · exact Or.inr (Or.inr h)
+    · rcases hcc with rfl | rfl
+      · exact Or.inr (Or.inr h)
+      · exact Or.inr (Or.inr rfl)
+  rcases hcase with rfl | ⟨hidle, _⟩ | ⟨rfl, _⟩ | ⟨_, hctx, hown⟩
+  · right; exact ⟨⟨p, hpc⟩, keep _ (Or.inl rfl)⟩
   · rw [hpc] at hidle; cases hidle
-  · right; exact ⟨hpc, Or.inr (Or.inr rfl)⟩
-  · left
-    rw [hpc] at hlt
-    cases hp : sd'.pc <;> simp [hp, stage] at hlt ⊢
+  · right; exact ⟨⟨p, hpc⟩, Or.inr (Or.inr rfl)⟩
+  · rcases hown with ⟨a, ha⟩ | ⟨m', hm', hp'⟩
+    · left; rw [ha, hpc]; exact after_send_pc m p a
+    · right
+      rw [hpc] at hm'
+      cases hm'
+      exact ⟨⟨true, hp'⟩, keep _ (Or.inl hctx)⟩
+
+/-- A `Send` that has not yet parked never waits: an arm of its `select` fires, it meets a parked `Next`,
+or it parks. -/
+theorem send_poll_enabled {st : State} {i : Nat} {sd : Sender} {m : Msg}
+    (hsd : st.senders[i]? = some sd) (hpc : sd.pc = .send m false) :
+    ∃ l st', ownLabel i l ∧ step st l = some st' := by
+  have hm : sd.pc.msg? = some m := by rw [hpc]; rfl
+  cases hany : (tableOf sd.pc).any (sReady st sd) with
+  | true =>
+    obtain ⟨a, ha, hr⟩ := List.any_eq_true.mp hany
+    have hcont : (tableOf sd.pc).contains a = true := by simpa using ha
+    cases a with
+    | recv ch => exact ⟨_, _, Or.inr (Or.inr ⟨_, rfl⟩), step_sender_recv hsd hm hcont hr⟩
+    | send ch => exact ⟨_, _, Or.inr (Or.inr ⟨_, rfl⟩), step_sender_send hsd hm hcont hr⟩
+    | dflt => simp [sReady] at hr
+  | false =>
+    cases hh : canHandoff st sd with
+    | true => exact ⟨_, _, Or.inl rfl, step_handoff_intro hsd hm hh⟩
+    | false =>
+      have hall : (tableOf sd.pc).all (fun a => !sReady st sd a) = true := by
+        rw [List.all_eq_true]
+        intro a ha
+        have := List.any_eq_false.mp hany a ha
+        simpa using this
+      have hd : sDefaultReady st sd = true := by simp [sDefaultReady, hall, hh]
+      exact ⟨_, _, Or.inr (Or.inl rfl), step_park_intro hsd hpc hd⟩
 
 /-! ### TrySend -/
 
@@ -237,15 +318,15 @@ theorem sReady_arm {st : State} {sd : Sender} {a : Arm} (h : sReady st sd a = tr
 /-- A pending `TrySend` always has an enabled step of its own, whatever the other goroutines do. -/
 theorem trySend_enabled {st : State} {i : Nat} {sd : Sender} {m : Msg} (hF : TryFacts)
     (hsd : st.senders[i]? = some sd) (hpc : sd.pc = .try1 m ∨ sd.pc = .try2 m) :
-    ∃ l st', (l = .handoff i ∨ ∃ a, l = .sender i a) ∧ step st l = some st' := by
+    ∃ l st', ownLabel i l ∧ step st l = some st' := by
   have hm : sd.pc.msg? = some m := by rcases hpc with h | h <;> (rw [h]; rfl)
   cases hany : (tableOf sd.pc).any (sReady st sd) with
   | true =>
     obtain ⟨a, ha, hr⟩ := List.any_eq_true.mp hany
     have hcont : (tableOf sd.pc).contains a = true := by simpa using ha
     rcases sReady_arm hr with ⟨ch, rfl⟩ | ⟨ch, rfl⟩
-    · exact ⟨_, _, Or.inr ⟨_, rfl⟩, step_sender_recv hsd hm hcont hr⟩
-    · exact ⟨_, _, Or.inr ⟨_, rfl⟩, step_sender_send hsd hm hcont hr⟩
+    · exact ⟨_, _, Or.inr (Or.inr ⟨_, rfl⟩), step_sender_recv hsd hm hcont hr⟩
+    · exact ⟨_, _, Or.inr (Or.inr ⟨_, rfl⟩), step_sender_send hsd hm hcont hr⟩
   | false =>
     cases hh : canHandoff st sd with
     | true => exact ⟨_, _, Or.inl rfl, step_handoff_intro hsd hm hh⟩
@@ -260,7 +341,7 @@ theorem trySend_enabled {st : State} {i : Nat} {sd : Sender} {m : Msg} (hF : Try
         rcases hpc with h | h <;> rw [h]
         · exact hF.dflt1
         · exact hF.dflt2
-      exact ⟨_, _, Or.inr ⟨_, rfl⟩, step_sender_dflt hsd hm htab hd⟩
+      exact ⟨_, _, Or.inr (Or.inr ⟨_, rfl⟩), step_sender_dflt hsd hm htab hd⟩
 
 /-! ### Next -/
 
@@ -272,13 +353,14 @@ structure NextFacts : Prop where
   drainDflt : nextDrains = true → nextDrainArms.contains .dflt = true
   drainOnly : nextDrainArms.all (fun a => a == .recv chData || a == .dflt) = true
 
-/-- The return condition of a pending `Next`: a value is available (buffered, or offered by a
-sender parked on the unbuffered channel), the sender is closed, or the context expired. -/
+/-- The return condition of a pending `Next`: a value is available (buffered, or a rendez-vous with a
+sender on the unbuffered channel is possible), the sender is closed, or the context expired. -/
 def NextCond (st : State) : Prop :=
   st.buf ≠ [] ∨ (∃ sd ∈ st.senders, canHandoff st sd = true) ∨ st.senderDone = true ∨ st.rctx = true
 
+/-- The labels that are steps of the receiver's call. -/
 def isRecvLabel : Label → Bool
-  | .recv _ | .handoff _ => true
+  | .recv _ | .handoff _ | .parkRecv => true
   | _ => false
 
 theorem step_recv_pop {st : State} {m : Msg} {rest : List Msg}
@@ -295,46 +377,99 @@ theorem handoff_of_mem {st : State} {sd : Sender} (hmem : sd ∈ st.senders) (hc
   have hm : ∃ m, sd.pc.msg? = some m := by
     cases hp : sd.pc with
     | idle => rw [hp] at htab; simp [tableOf] at htab
-    | send m => exact ⟨m, rfl⟩
+    | send m p => exact ⟨m, rfl⟩
     | try1 m => exact ⟨m, rfl⟩
     | try2 m => exact ⟨m, rfl⟩
   obtain ⟨m, hm⟩ := hm
   exact ⟨i, _, step_handoff_intro hi hm hc, rfl⟩
 
-/-- A pending `Next` whose return condition holds has an enabled step, and every step of the
-receiver moves `Next` strictly towards its return (`next → drain → returned`). -/
-theorem next_enabled {st : State} (hF : NextFacts) (hpc : st.rpc = .next) (hc : NextCond st) :
-    ∃ l st', isRecvLabel l = true ∧ step st l = some st' ∧ rstage st'.rpc < rstage st.rpc := by
-  rcases hc with h | ⟨sd, hmem, hh⟩ | h | h
-  · cases hb : st.buf with
-    | nil => exact absurd hb h
-    | cons m rest =>
-      refine ⟨_, _, rfl, step_recv_pop (by rw [hpc]; exact hF.dataArm) hb, ?_⟩
-      simp [hpc, rstage]
-  · obtain ⟨i, st', hs, hr⟩ := handoff_of_mem hmem hh
-    exact ⟨_, st', rfl, hs, by simp [hr, hpc, rstage]⟩
-  · cases hb : st.buf with
-    | cons m rest =>
-      refine ⟨_, _, rfl, step_recv_pop (by rw [hpc]; exact hF.dataArm) hb, ?_⟩
-      simp [hpc, rstage]
-    | nil =>
-      have htab : Arm.recv chSenderDone ∈ rtableOf st.rpc := by rw [hpc]; simpa [rtableOf] using hF.senderArm
-      have htab2 : Arm.recv chSenderDone ∈ rtableOf RPc.next := by simpa [rtableOf] using hF.senderArm
-      by_cases hd : nextDrains = true
-      · refine ⟨.recv (.recv chSenderDone), { st with rpc := .drain }, rfl, ?_, by simp [hpc, rstage]⟩
-        simp [step, htab2, rReady, h, hpc, hd, chData, chCtx, chSenderDone]
-      · refine ⟨.recv (.recv chSenderDone), reportEnd st, rfl, ?_, by simp [hpc, rstage, reportEnd]⟩
-        simp [step, htab, rReady, h, hd, chData, chCtx, chSenderDone]
-  · cases hb : st.buf with
-    | cons m rest =>
-      refine ⟨_, _, rfl, step_recv_pop (by rw [hpc]; exact hF.dataArm) hb, ?_⟩
-      simp [hpc, rstage]
-    | nil =>
-      have htab : Arm.recv chCtx ∈ rtableOf st.rpc := by rw [hpc]; simpa [rtableOf] using hF.ctxArm
-      refine ⟨.recv (.recv chCtx), { st with rpc := .idle }, rfl, ?_, by simp [hpc, rstage]⟩
-      simp [step, htab, rReady, h, chData, chCtx, chSenderDone]
+/-- Any ready arm of the receiver's select can fire, and firing it moves `Next` towards its return. -/
+theorem recv_arm_enabled {st : State} {a : Arm} (htab : (rtableOf st.rpc).contains a = true)
+    (hr : rReady st a = true) : ∃ st', step st (.recv a) = some st' ∧ rstage st'.rpc < rstage st.rpc := by
+  have hpos : 0 < rstage st.rpc := by
+    cases h : st.rpc with
+    | idle => simp [h, rtableOf] at htab
+    | drain => simp [rstage]
+    | next p => cases p <;> simp [rstage]
+  cases a with
+  | dflt => simp [rReady] at hr
+  | send ch => simp [rReady] at hr
+  | recv ch =>
+    by_cases hd : ch = chData
+    · subst hd
+      have hb : st.buf ≠ [] := by
+        intro hb
+        simp [rReady, hb, chData, chCtx, chSenderDone] at hr
+      cases hbuf : st.buf with
+      | nil => exact absurd hbuf hb
+      | cons m rest => exact ⟨_, step_recv_pop htab hbuf, by simpa [rstage] using hpos⟩
+    · by_cases hsd : ch = chSenderDone
+      · subst hsd
+        have htab' : Arm.recv chSenderDone ∈ rtableOf st.rpc := by simpa using htab
+        cases hc : (st.rpc.isNext && nextDrains) with
+        | true =>
+          refine ⟨{ st with rpc := .drain }, ?_, ?_⟩
+          · simp [step, htab', hr, hc, chData, chSenderDone]
+          · simp only [Bool.and_eq_true] at hc
+            cases h : st.rpc with
+            | next p => cases p <;> simp [rstage]
+            | idle => simp [h, RPc.isNext] at hc
+            | drain => simp [h, RPc.isNext] at hc
+        | false =>
+          refine ⟨reportEnd st, ?_, by simpa [reportEnd, rstage] using hpos⟩
+          simp [step, htab', hr, hc, chData, chSenderDone]
+      · have htab' : Arm.recv ch ∈ rtableOf st.rpc := by simpa using htab
+        refine ⟨{ st with rpc := .idle }, ?_, by simpa [rstage] using hpos⟩
+        simp [step, htab', hr, hd, hsd]
 
-/-- The drain never waits: it pops, takes a hand-off, or falls to `default` and reports. -/
+/-- A pending `Next` (polling or parked) whose return condition holds has an enabled step, and every
+such step moves it strictly towards its return. -/
+theorem next_enabled {st : State} {p : Bool} (hF : NextFacts) (hpc : st.rpc = .next p) (hc : NextCond st) :
+    ∃ l st', isRecvLabel l = true ∧ step st l = some st' ∧ rstage st'.rpc < rstage st.rpc := by
+  have hge := rstage_next_ge p
+  have tab : ∀ a, nextArms.contains a = true → (rtableOf st.rpc).contains a = true := by
+    intro a ha; rw [hpc]; exact ha
+  rcases hc with h | ⟨sd, hmem, hh⟩ | h | h
+  · obtain ⟨st', hs, hlt⟩ := recv_arm_enabled (a := .recv chData) (tab _ hF.dataArm)
+      (by cases hb : st.buf with
+          | nil => exact absurd hb h
+          | cons m r => simp [rReady, hb, chData, chCtx, chSenderDone])
+    exact ⟨_, st', rfl, hs, hlt⟩
+  · obtain ⟨i, st', hs, hr⟩ := handoff_of_mem hmem hh
+    exact ⟨_, st', rfl, hs, by rw [hr, hpc]; cases p <;> simp [rstage]⟩
+  · obtain ⟨st', hs, hlt⟩ := recv_arm_enabled (a := .recv chSenderDone) (tab _ hF.senderArm)
+      (by simp [rReady, h, chData, chCtx, chSenderDone])
+    exact ⟨_, st', rfl, hs, hlt⟩
+  · obtain ⟨st', hs, hlt⟩ := recv_arm_enabled (a := .recv chCtx) (tab _ hF.ctxArm)
+      (by simp [rReady, h, chData, chCtx, chSenderDone])
+    exact ⟨_, st', rfl, hs, hlt⟩
+
+/-- A select of the receiver that is still polling never waits: an arm fires, it meets a parked
+sender, or (nothing ready) the outer select parks. -/
+theorem next_poll_enabled {st : State} (hpc : st.rpc = .next false) :
+    ∃ l st', isRecvLabel l = true ∧ step st l = some st' ∧ rstage st'.rpc < rstage st.rpc := by
+  cases hany : (rtableOf st.rpc).any (rReady st) with
+  | true =>
+    obtain ⟨a, ha, hr⟩ := List.any_eq_true.mp hany
+    obtain ⟨st', hs, hlt⟩ := recv_arm_enabled (a := a) (by simpa using ha) hr
+    exact ⟨_, st', rfl, hs, hlt⟩
+  | false =>
+    cases hh : st.senders.any (canHandoff st) with
+    | true =>
+      obtain ⟨sd, hmem, hc⟩ := List.any_eq_true.mp hh
+      obtain ⟨i, st', hs, hr⟩ := handoff_of_mem hmem hc
+      exact ⟨_, st', rfl, hs, by rw [hr, hpc]; simp [rstage]⟩
+    | false =>
+      have hall : (rtableOf st.rpc).all (fun a => !rReady st a) = true := by
+        rw [List.all_eq_true]
+        intro a ha
+        have := List.any_eq_false.mp hany a ha
+        simpa using this
+      refine ⟨.parkRecv, { st with rpc := .next true }, rfl, ?_, by rw [hpc]; simp [rstage]⟩
+      simp [step, hpc, rDefaultReady, hh]
+      simpa [hpc] using hall
+
+/-- The drain never waits: it pops, takes a hand-off from a parked `Send`, or falls to `default` and reports. -/
 theorem drain_enabled {st : State} (hF : NextFacts) (hdr : nextDrains = true) (hpc : st.rpc = .drain) :
     ∃ l st', isRecvLabel l = true ∧ step st l = some st' ∧ st'.rpc = .idle := by
   cases hb : st.buf with
@@ -362,11 +497,11 @@ theorem drain_enabled {st : State} (hF : NextFacts) (hdr : nextDrains = true) (h
       simp [step, hpc, rDefaultReady, hany]
       exact ⟨htab, by simpa [hpc] using hall⟩
 
-/-- While `Next` is parked in its main select, the stable part of its return condition (a buffered
+/-- While `Next` is at its main select, the stable part of its return condition (a buffered
 value, the sender's `Close`, the expired context) cannot be withdrawn. -/
-theorem next_cond_stable {st st' : State} {l : Label} (hpc : st.rpc = .next)
+theorem next_cond_stable {st st' : State} {l : Label} (hpc : st.rpc.isNext = true)
     (hc : st.buf ≠ [] ∨ st.senderDone = true ∨ st.rctx = true) (hs : step st l = some st') :
-    st'.rpc ≠ .next ∨ (st'.buf ≠ [] ∨ st'.senderDone = true ∨ st'.rctx = true) := by
+    st'.rpc.isNext = false ∨ (st'.buf ≠ [] ∨ st'.senderDone = true ∨ st'.rctx = true) := by
   cases l with
   | startSend i v c =>
     obtain ⟨sd, _, _, rfl⟩ := step_startCall (by simpa [step] using hs); exact Or.inr hc
@@ -374,7 +509,7 @@ theorem next_cond_stable {st st' : State} {l : Label} (hpc : st.rpc = .next)
     obtain ⟨sd, _, _, rfl⟩ := step_startCall (by simpa [step] using hs); exact Or.inr hc
   | startNext c =>
     simp only [step] at hs; split at hs
-    · rename_i h; rw [hpc] at h; simp at h
+    · rename_i h; rw [h.1] at hpc; simp [RPc.isNext] at hpc
     · simp at hs
   | cancelSender i => obtain ⟨sd, _, rfl⟩ := step_cancelSender hs; exact Or.inr hc
   | cancelNext =>
@@ -396,10 +531,12 @@ theorem next_cond_stable {st st' : State} {l : Label} (hpc : st.rpc = .next)
     · exact Or.inr (Or.inl (by simp))
   | handoff i =>
     obtain ⟨sd, m, _, _, _, rfl⟩ := step_handoff hs
-    exact Or.inl (by simp)
+    exact Or.inl (by simp [RPc.isNext])
+  | park i => obtain ⟨sd, m, _, _, _, rfl⟩ := step_park hs; exact Or.inr hc
+  | parkRecv => obtain ⟨_, _, rfl⟩ := step_parkRecv hs; exact Or.inr hc
   | recv a =>
     obtain ⟨_, hcase⟩ := step_recv hs
     rcases hcase with ⟨m, rest, _, _, rfl⟩ | ⟨_, _, _, _, rfl⟩ | ⟨_, _, _, rfl⟩ | ⟨ch, _, _, _, rfl⟩ | ⟨_, _, _, rfl⟩ <;>
-      exact Or.inl (by simp [reportEnd])
+      exact Or.inl (by simp [reportEnd, RPc.isNext])
 
 end Juniper.Proofs.Pipe
